@@ -48,7 +48,7 @@ type c16Line struct {
 	Props *j5    `json:"props,omitempty"`
 	Sep   int    `json:"sep,omitempty"` // blanks after the comma before the props
 	Desc  string `json:"desc,omitempty"`
-	Gap   int    `json:"gap,omitempty"` // extra blanks before the description
+	Gap   int    `json:"gap,omitempty"`  // extra blanks before the description
 	Text  string `json:"text,omitempty"` // free text / near-miss / malformed props (raw)
 }
 
@@ -233,7 +233,7 @@ func j5Gen(depth int) *rapid.Generator[j5] {
 		}
 		switch rapid.SampledFrom(kinds).Draw(t, "kind") {
 		case "obj":
-			return j5ObjGen(depth - 1).Draw(t, "obj")
+			return j5ObjGen(depth-1).Draw(t, "obj")
 		case "arr":
 			n := rapid.IntRange(0, 3).Draw(t, "n")
 			v := j5{Kind: "arr", Trailing: rapid.Bool().Draw(t, "trail"), Pad: rapid.IntRange(0, 1).Draw(t, "pad")}
